@@ -310,6 +310,7 @@ func WithManifestDigestAlgo(algo digest.Algorithm) Opts {
 			desc := dm.m.GetDescriptor()
 			desc.Digest = ""
 			desc.Size = 0 // the body is serialized again, its length can differ from the original
+			desc.Data = nil
 			err := desc.DigestAlgoPrefer(algo)
 			if err != nil {
 				return err
